@@ -159,9 +159,27 @@ def definition_rejections(rng):
 # ---- check -----------------------------------------------------------------------------------------------------
 def check(prop, tier, seed):
     rep = Report(prop, tier, seed)
-    n = common.tier_n(tier, 3000, 40000)
+    n = common.tier_n(tier, 1500, 40000)
     items = common.choose_items(prop, tier, seed, n, mode_fraction=0.10, mode_cap=150 if tier == "quick" else 500)
     items += [{"b": k} for k in range(len(universe.battery()))]
+    # integer-coded class: give EVERY (optimizer, encoding) pair that works today at least 6 distinct audited cases per run,
+    # so that the wholesale rule can be decided for all of them (c06_pair_index.json lists universe indices per pair)
+    try:
+        pidx = json.load(open(os.path.join(env.VERIF, "c06_pair_index.json")))["pairs"]
+    except FileNotFoundError:
+        pidx = {}
+    base0 = baseline()
+    rr = random.Random(f"c06pairs/{tier}/{seed}")
+    have = set(i for i in items if isinstance(i, int))
+    per_pair = 6 if tier == "quick" else 16
+    for pk in sorted(pidx):
+        b = base0.get(pk)
+        if b is None or b[1] < 24 or b[0] / b[1] < 0.9:
+            continue
+        for i in rr.sample(pidx[pk], min(per_pair, len(pidx[pk]))):
+            if i not in have:
+                have.add(i)
+                items.append(i)
     pairs = common.run_campaign(rep, items)
     counters = collections.Counter()
     opts_seen = set()
@@ -245,7 +263,8 @@ def check(prop, tier, seed):
                 "cases is a violation; invalid side: 10 invalid calls per optimizer must raise ValueError with zero "
                 "optimization_step invocations, invalid definitions must raise ValueError at construction")
     rep.require("optimizers_observed", len(opts_seen), 84)
-    rep.require("strict_class_runs_ok", strict_ok, 800 if n >= 3000 else 10)
+    rep.require("strict_class_runs_ok", strict_ok, 800 if n >= 1500 else 10)
+    rep.require("integer_pairs_judged_for_wholesale_failure", judged_pairs, 300)
     rep.require("invalid_calls_judged", invalid_calls, 84 * 8)
     rep.require("invalid_side_optimizers", len(inv_opts), 84)
     return rep.finish()
